@@ -97,7 +97,22 @@ def r19_presets(rep, M, rid_nan, rid_tab):
     for p, want in (("covalent", {COV}), ("vdw", {VDW})):
         vals = [s.value for s in br[p] if isinstance(s, ast.Assign)]
         names = set().union(*[data_names(M, GET_RADII, v) for v in vals]) if vals else set()
-        if names == want:
+        def unchanged(v):
+            """the table itself, possibly through a plain array conversion / copy"""
+            for _ in range(4):
+                if isinstance(v, ast.Call) and len(v.args) == 1 and not v.keywords and (M.ext_name(GET_RADII, v.func) or "") in ("numpy.array", "numpy.asarray", "numpy.copy"):
+                    v = v.args[0]
+                elif isinstance(v, ast.Call) and isinstance(v.func, ast.Attribute) and v.func.attr == "copy" and not v.args:
+                    v = v.func.value
+                else:
+                    break
+            return isinstance(v, (ast.Name, ast.Attribute))
+        changed = [v for v in vals if not unchanged(v)]
+        if names == want and changed:
+            rep.violation(rid_tab, f"get_radii preset {p!r}", f"`{norm(changed[0])[:70]}` is not the documented table itself: the values are transformed (e.g. undefined radii "
+                          "turned into 0.0 or scaled), so the preset and the same documented numbers passed as a custom array give different results",
+                          M.where(GET_RADII, changed[0]))
+        elif names == want:
             rep.ok(rid_tab, f"get_radii preset {p!r} -> {sorted(names)}")
         else:
             rep.violation(rid_tab, f"get_radii preset {p!r}",
